@@ -324,3 +324,51 @@ def geig_basic(rng, count, types=("d",), classes=("gchol", "greginv", "gsi", "gb
         kw["hist"] = rng.choice(histories or ["N,I,C0", "N,I,C0", "N,V1,C0", "N,I,C0,V1,C1,I,C0", "N,I,C0,C1"])
         out.append(desc(**kw))
     return out
+
+
+def selection_descs(rng, count, types=("d",), classes=("sym", "symsh", "herm", "gen", "genrs", "gencs", "gchol", "greginv", "gsi", "gbuck", "gcay")):
+    """C04 domain: prescribed integer spectra (simple, well separated), every rule each solver supports, ncv >= 2 nev + 1,
+    default start vector, half-integer shifts (never an eigenvalue)."""
+    out = []
+    for i in range(count):
+        cls = classes[i % len(classes)]
+        ty = rng.choice(types)
+        gen = cls in ("gen", "genrs", "gencs")
+        n = rng.randint(10, 22)
+        nev = rng.randint(1, 4)
+        ncv = min(n, rng.randint(2 * nev + 1, 2 * nev + 7))
+        if gen:
+            nev = min(nev, n - 2)
+        half = "%d.5" % rng.randint(-13, 12)
+        kw = dict(cls=cls, ty=ty, n=n, nev=nev, ncv=ncv, seed=rng.randint(1, 10 ** 6), hist="N,I,C0", c04=1, meas=0, mconv=0)
+        if gen:
+            rule = rng.choice(GEN_RULES)
+            kw.update(fam="presc", spec="cint", ncp=rng.randint(0, 3))
+            if cls == "gencs":
+                kw.update(ncp=0, sigma=half, sigmai=str(rng.randint(1, 4)))
+                rule = 0
+            if cls == "genrs":
+                kw.update(sigma=half)
+                rule = rng.choice([0, 1, 2])   # Smallest* of nu = far from the shift: converges very slowly (allowed to fail in the suite)
+            if n - 2 * kw["ncp"] > 9:
+                kw["n"] = 2 * kw["ncp"] + 9
+                kw["ncv"] = min(kw["ncv"], kw["n"])
+                kw["nev"] = min(kw["nev"], kw["n"] - 2, (kw["ncv"] - 1) // 2)
+                kw["nev"] = max(1, kw["nev"])
+            sort = rng.choice(GEN_RULES)
+        else:
+            rule = rng.choice(HERM_SEL)
+            sort = rng.choice(HERM_SORT)
+            if cls in ("sym", "symsh", "herm"):
+                kw.update(fam="presc", spec="evenintnz")
+            else:
+                kw.update(fam="pencil", spec="evenintnz", lgc=2, uplo=rng.choice(["ll", "uu", "ul", "lu"]),
+                          store="ss" if cls == "greginv" else rng.choice(["dd", "ss"] if cls == "gchol" else ["dd", "ss", "sd", "ds"]))
+            if cls in ("symsh", "gsi", "gbuck", "gcay"):
+                kw["sigma"] = half
+                # SmallestMagn of nu = farthest from the shift: converges very slowly, use the rules with a practical meaning
+                rule = rng.choice([0, 3, 7, 8])
+        tol = "-4" if ty == "f" else "-10"
+        kw["args0"] = "%d:%d:%s:%d" % (rule, 500, tol, sort)
+        out.append(desc(**kw))
+    return out
